@@ -7,6 +7,7 @@ from .collmodel import Node, SHAPES, dump_value, _key
 PROPERTY = "C05"
 LEVEL = "exploration"
 HARNESS = "hgdrive"
+SANITIZE = "asan"      # thorough tier: same batch under -fsanitize=address,undefined
 RULE = ("scripted mutation histories (add/remove/update/clear, several mutations of one element in a cycle, cancelling pairs, "
         "erase then re-insert within and across cycles, growth to 200 keys) over TSS<Int>, TSD<Int,TS>, TSD<Int,TSS>, "
         "TSD<Str,TSB>, TSD<Int,TSD>, TSL<TS,3>, TSL<TSB,2>, TSB{TS,TSS}, TSW<Int,3,2>; a mirror node reads value, added, "
